@@ -39,8 +39,7 @@ inductive DErr where
   | initFailure | invalidStream | invalidDictionary | maxSizeExceeded | excessInputData | ioError
   deriving Repr, DecidableEq
 
-/-- incremental_font_transfer::font_patch::PatchingError; `unmodelled` marks code paths this model
-does not cover (gvar / CFF / CFF2 re-assembly) — the harness never sends such inputs. -/
+/-- incremental_font_transfer::font_patch::PatchingError -/
 inductive PErr where
   | patchParsingFailed (e : RErr)
   | fontParsingFailed (e : RErr)
@@ -51,7 +50,6 @@ inductive PErr where
   | emptyPatchList
   | internalError
   | missingPatches
-  | unmodelled (what : String)
   deriving Repr, DecidableEq
 
 /-- font_patch.rs `impl From<DecodeError> for PatchingError` -/
